@@ -62,7 +62,7 @@ def _canon_payload(p, sub):
     return (type(p).__name__, repr(p))
 
 
-def structural_key(root, ac=False, anon_fresh=False, _cache=None):
+def structural_key(root, ac=False, anon_fresh=False, _cache=None, labels=None):
     """Environment-independent key of an FNode: (node_type, payload, children keys).  Iterative.
     ac=True sorts the children of commutative operators; anon_fresh=True replaces the names of fresh symbols
     (FV<n>) by their sort.  Keys are nested tuples hashed bottom-up into strings of bounded size."""
@@ -96,7 +96,9 @@ def structural_key(root, ac=False, anon_fresh=False, _cache=None):
                     stack.append((c, False))
                 continue
             nt = node.node_type()
-            if anon_fresh and nt == op.SYMBOL and FRESH_RE.match(node.symbol_name()):
+            if labels is not None and node in labels:
+                pk = ("label", labels[node])
+            elif anon_fresh and nt == op.SYMBOL and FRESH_RE.match(node.symbol_name()):
                 pk = ("fresh", str(node.symbol_type()))
             else:
                 pk = _canon_payload(payload, lambda x: cache[x])
